@@ -345,8 +345,11 @@ class Server:
     def __init__(self, rng=None, caps=None, post_tls_caps=None, version=True, starttls=True,
                  sasl=("PLAIN",), users=None, scripts=None, active=None, quota=100000,
                  encodings="mixed", canned=None, faults=None, greeting=True,
-                 greeting_status=b'OK "ready"\r\n'):
+                 greeting_status=b'OK "ready"\r\n', digest_realm=b"example.org"):
         self.rng = rng or random.Random(0)
+        # realm offered in the DIGEST-MD5 challenge: bytes, b"" (empty directive) or None (no
+        # realm directive at all - RFC 2831 allows it)
+        self.digest_realm = digest_realm
         self.version = version
         self.starttls_cap = starttls
         self.sasl = list(sasl) if sasl is not None else None
@@ -728,8 +731,10 @@ class Server:
         elif mech == "DIGEST-MD5":
             nonce = b"OA6MG9tEQGm2hh"
             self.sasl_state["nonce"] = nonce
-            ch = b'realm="example.org",nonce="' + nonce + b'",qop="auth",algorithm=md5-sess,' \
-                 b'charset=utf-8'
+            ch = b'nonce="' + nonce + b'",qop="auth",algorithm=md5-sess,charset=utf-8'
+            if self.digest_realm is not None:
+                ch = b'realm="' + self.digest_realm + b'",' + ch
+            self.sasl_state["realm"] = self.digest_realm
             self.emit(quoted(base64.b64encode(ch)) + CRLF)
         else:
             self.sasl_state = None
@@ -852,6 +857,11 @@ class Server:
             self.violation("DIGEST-MD5 nonce mismatch")
             return False
         realm = d.get(b"realm", b"")
+        # RFC 2831 2.1.2: the response names one of the realms offered; with none offered the
+        # directive is missing or empty (the account lives in no other realm)
+        if realm != (st.get("realm") or b""):
+            self.log.append(("digest-realm-not-offered", realm, st.get("realm")))
+            return False
         a1 = hashlib.md5(user + b":" + realm + b":" + pw).digest() + b":" + d[b"nonce"] + \
             b":" + d[b"cnonce"]
         if b"authzid" in d:
